@@ -195,15 +195,7 @@ def c18(tier):
         else:
             traces.append({"id": rq["id"], "events": a["events"], "end": a["end"],
                            "ledger": 1 if rq["elem"] == "tracked" else 0})
-    d = workdir("C18")
-    path = os.path.join(d, "traces.ndjson")
-    tlc.write_ndjson(path, traces)
-    res = tlc.run_tlc("SmallVec", env={"CASES": path}, workers=max(2, NCPU - 2), timeout=1800)
-    rep.add_tlc(res)
-    verdicts = {r["id"]: r for r in res.records if "verdict" in r}
-    if len(verdicts) != len(traces):
-        raise ToolError("SmallVec validation returned %d verdicts for %d histories\n%s" % (
-            len(verdicts), len(traces), res.raw_tail))
+    verdicts = tlc.validate_in_chunks("SmallVec", traces, rep, "C18", chunk=6000)
     rep.count("traces_validated_against_impl", len(traces))
     nontrivial = 0
     for rq, t in zip(reqs, traces):
